@@ -20,6 +20,11 @@ pub enum Action {
     Reset(usize),
     /// liveness probe: a fresh fault-free connection must get correct answers
     Probe,
+    /// from here to the matching `Release` the actions are applied back to back,
+    /// without letting the server run in between: their effects reach the server
+    /// in the same scheduling round (requests really in flight together)
+    Hold,
+    Release,
 }
 
 #[derive(Clone, Debug, PartialEq)]
@@ -41,6 +46,8 @@ impl Action {
             Action::Close(c) => json!(["close", c]),
             Action::Reset(c) => json!(["reset", c]),
             Action::Probe => json!(["probe"]),
+            Action::Hold => json!(["hold"]),
+            Action::Release => json!(["release"]),
         }
     }
     pub fn from_json(v: &Value) -> Option<Action> {
@@ -56,13 +63,15 @@ impl Action {
             "close" => Action::Close(c),
             "reset" => Action::Reset(c),
             "probe" => Action::Probe,
+            "hold" => Action::Hold,
+            "release" => Action::Release,
             _ => return None,
         })
     }
     pub fn conn(&self) -> Option<usize> {
         match self {
             Action::Open(c) | Action::Deliver(c, _) | Action::Drain(c, _) | Action::DrainAll(c) | Action::HalfClose(c) | Action::Close(c) | Action::Reset(c) => Some(*c),
-            Action::Probe => None,
+            Action::Probe | Action::Hold | Action::Release => None,
         }
     }
     pub fn is_fault(&self) -> bool {
@@ -334,8 +343,102 @@ impl<'a> RunGen<'a> {
         }
     }
 
+    /// A long, mostly sequential history dominated by one kind of event: the
+    /// shape that exposes per-event leaks (a counter, permit or worker lost on
+    /// every bad request / aborted connection) which only bite after N events.
+    fn gen_soak(&self, rng: &mut Rng, idx: u64) -> RunDesc {
+        let kind = rng.below(9);
+        let n_events = *rng.pick(&[70usize, 130, 260, 520]);
+        let small = |i: usize| format!("+--+\n|{:>2}|\n+--+\n", i % 97).into_bytes();
+        let post = |body: Vec<u8>| ReqSpec { method: "POST".into(), path: "/".into(), version: "1.1".into(), headers: vec![], body: BodySpec::Bytes(body), framing: Framing::ContentLength, raw: None };
+        let get = |path: &str| ReqSpec { method: "GET".into(), path: path.into(), version: "1.1".into(), headers: vec![], body: BodySpec::None, framing: Framing::None, raw: None };
+        let mut conns: Vec<Vec<ReqSpec>> = vec![];
+        let mut actions = vec![];
+        let mut made = 0;
+        while made < n_events {
+            let c = conns.len();
+            let mut reqs = vec![];
+            let mut fault: Option<Action> = None;
+            let mut cut: Option<usize> = None;
+            match kind {
+                // keep-alive histories of one request kind, a few dozen per connection
+                0..=3 => {
+                    let per = rng.urange(8, 60).min(n_events - made);
+                    for i in 0..per {
+                        let r = if rng.chance(1, 10) {
+                            get("/")
+                        } else {
+                            match kind {
+                                0 => {
+                                    let mut b = small(made + i);
+                                    b.insert(rng.usize_below(b.len() + 1), 0xff);
+                                    post(b)
+                                }
+                                1 => post(small(made + i)),
+                                2 => get("/"),
+                                _ => get("/nothing-here"),
+                            }
+                        };
+                        reqs.push(r);
+                    }
+                    made += per;
+                }
+                // one connection per event, each disturbed by the client
+                4 => {
+                    reqs.push(post(small(made)));
+                    let total = reqs[0].to_bytes().len();
+                    cut = Some(rng.urange(1, total - 1));
+                    fault = Some(if rng.chance(1, 2) { Action::Close(c) } else { Action::Reset(c) });
+                    made += 1;
+                }
+                5 => {
+                    // complete request, connection dropped before the answer is read
+                    reqs.push(post(small(made)));
+                    fault = Some(if rng.chance(1, 2) { Action::Close(c) } else { Action::Reset(c) });
+                    made += 1;
+                }
+                6 => {
+                    reqs.push(post(small(made)));
+                    fault = Some(Action::HalfClose(c));
+                    made += 1;
+                }
+                7 => {
+                    let raw = rng.pick(RAW_MALFORMED).to_vec();
+                    reqs.push(ReqSpec { method: "RAW".into(), path: "".into(), version: "1.1".into(), headers: vec![], body: BodySpec::None, framing: Framing::None, raw: Some(raw) });
+                    made += 1;
+                }
+                _ => {
+                    // a library panic per request would be C01's business; here: bodies with hostile markup
+                    reqs.push(post(rng.pick(gen::HOSTILE).as_bytes().to_vec()));
+                    made += 1;
+                }
+            }
+            let total: usize = reqs.iter().map(|r| r.to_bytes().len()).sum();
+            actions.push(Action::Open(c));
+            let disturbed_before_answer = matches!(kind, 5) && fault.is_some();
+            if !disturbed_before_answer {
+                actions.push(Action::DrainAll(c));
+            }
+            match cut {
+                Some(k) => actions.push(Action::Deliver(c, k)),
+                None => actions.push(Action::Deliver(c, total)),
+            }
+            if let Some(f) = fault {
+                actions.push(f);
+            }
+            if rng.chance(1, 40) {
+                actions.push(Action::Probe);
+            }
+            conns.push(reqs);
+        }
+        RunDesc { idx, conns, actions, hash_seed: rng.next_u64() | 1 }
+    }
+
     pub fn gen_run(&self, seed: u64, idx: u64) -> RunDesc {
         let mut rng = Rng::new(simcommon::mix(seed, "c20-run", idx));
+        if rng.chance(1, 12) {
+            return self.gen_soak(&mut rng, idx);
+        }
         let mask = GenMask(GenMask::swarm(&mut rng).0 & !gen::G_FILE);
         let n_conns = match rng.below(20) {
             0..=4 => 1,
@@ -473,6 +576,26 @@ impl<'a> RunGen<'a> {
                     }
                 }
             }
+        }
+        // batches: some windows of consecutive actions reach the server together
+        if rng.chance(2, 5) {
+            let mut out = vec![];
+            let mut i = 0;
+            while i < actions.len() {
+                if rng.chance(1, 6) && !matches!(actions[i], Action::Probe) {
+                    let k = rng.urange(2, 5).min(actions.len() - i);
+                    if actions[i..i + k].iter().all(|a| !matches!(a, Action::Probe)) {
+                        out.push(Action::Hold);
+                        out.extend(actions[i..i + k].iter().cloned());
+                        out.push(Action::Release);
+                        i += k;
+                        continue;
+                    }
+                }
+                out.push(actions[i].clone());
+                i += 1;
+            }
+            actions = out;
         }
         RunDesc { idx, conns, actions, hash_seed: rng.next_u64() | 1 }
     }
